@@ -1,3 +1,5 @@
+(* Theorems over the *generated* tables (Gen/GenRefers.v, regenerated from /repo/src/ir/wrappers.rs and from
+   the operator table of the pinned wasmparser on every check): which operators fix_op_id_mapping rewrites. *)
 From Coq Require Import List NArith Bool.
 Import ListNotations.
 From Orca Require Import GenRefers.
@@ -6,16 +8,25 @@ Open Scope N_scope.
 Definition mem (x : N) (l : list N) := existsb (N.eqb x) l.
 Definition missing (need have : list N) := filter (fun k => negb (mem k have)) need.
 
-(* complete and exact for functions and globals *)
+(* complete and exact for functions and globals: the operators with a `function_index` / `global_index`
+   field are exactly the listed ones *)
 Theorem refers_to_func_complete : missing ops_with_func_index refers_to_func_list = [] /\ missing refers_to_func_list ops_with_func_index = [].
 Proof. vm_compute. split; reflexivity. Qed.
 Theorem refers_to_global_complete : missing ops_with_global_index refers_to_global_list = [] /\ missing refers_to_global_list ops_with_global_index = [].
 Proof. vm_compute. split; reflexivity. Qed.
-(* the classifier and the rewriter agree with each other *)
-Theorem refers_update_agree :
-  missing refers_to_memory_list update_memory_list = [] /\ missing update_memory_list refers_to_memory_list = [].
+(* memories: every operator with a memarg / mem / src_mem / dst_mem immediate is classified, and nothing else *)
+Theorem refers_to_memory_complete : missing ops_with_memory_index refers_to_memory_list = [] /\ missing refers_to_memory_list ops_with_memory_index = [].
 Proof. vm_compute. split; reflexivity. Qed.
-(* memory: refuted today *)
-Eval vm_compute in (length (missing ops_with_memory_index refers_to_memory_list), missing ops_with_memory_index refers_to_memory_list).
-Theorem refers_to_memory_refuted : exists k, In k ops_with_memory_index /\ mem k refers_to_memory_list = false.
-Proof. exists (hd 0 (missing ops_with_memory_index refers_to_memory_list)). vm_compute. split; [tauto|reflexivity]. Qed.
+(* the classifiers and the rewriters agree with each other (an operator classified but not rewritten would
+   hit the `_ => panic!` arm; one rewritten but not classified would never be reached) *)
+Theorem refers_update_agree :
+  (missing refers_to_memory_list update_memory_list = [] /\ missing update_memory_list refers_to_memory_list = []) /\
+  (missing refers_to_func_list update_fn_list = [] /\ missing update_fn_list refers_to_func_list = []) /\
+  (missing refers_to_global_list update_global_list = [] /\ missing update_global_list refers_to_global_list = []).
+Proof. vm_compute. repeat split; reflexivity. Qed.
+(* in the form used by clients: for every operator code *)
+Theorem memory_operator_covered : forall k, In k ops_with_memory_index -> mem k refers_to_memory_list = true /\ mem k update_memory_list = true.
+Proof.
+  assert (H : forallb (fun k => mem k refers_to_memory_list && mem k update_memory_list) ops_with_memory_index = true) by (vm_compute; reflexivity).
+  intros k Hk. rewrite forallb_forall in H. specialize (H k Hk). apply andb_prop in H. exact H.
+Qed.
